@@ -148,7 +148,12 @@ impl<'a> PrettyPrinter<'a> {
                     !matches!(child.kind(), SyntaxKind::RightParen | SyntaxKind::Space)
                 })
                 .unwrap_or(children.len().saturating_sub(1));
-            children[i..=j].iter()
+            // `( )` holds nothing but blanks: `i` points at the right paren and `j` at the left one.
+            if i > j {
+                children[..0].iter()
+            } else {
+                children[i..=j].iter()
+            }
         };
 
         let mut peek_hashed_arg = false;
